@@ -25,6 +25,30 @@ func isConnClose(in ssa.Instruction) bool {
 		return false
 	}
 	com := ci.Common()
+	if com.IsInvoke() && com.Method.Name() == "Close" && flow.TypeIs(com.Value.Type(), pkgDiam, "Conn") {
+		return true
+	}
+	// a package-local helper that closes a connection it is handed on every path (abort helpers)
+	if h := flow.StaticCallee(ci); h != nil && h.Blocks != nil && h.Pkg != nil && h.Pkg.Pkg.Path() == pkgSM {
+		takesConn := false
+		for _, a := range com.Args {
+			if flow.TypeIs(a.Type(), pkgDiam, "Conn") {
+				takesConn = true
+			}
+		}
+		if takesConn && flow.PathAvoiding(h, nil, flow.IsReturn, isConnCloseDirect) == nil {
+			return true
+		}
+	}
+	return false
+}
+
+func isConnCloseDirect(in ssa.Instruction) bool {
+	ci, ok := in.(ssa.CallInstruction)
+	if !ok {
+		return false
+	}
+	com := ci.Common()
 	return com.IsInvoke() && com.Method.Name() == "Close" && flow.TypeIs(com.Value.Type(), pkgDiam, "Conn")
 }
 
@@ -248,45 +272,97 @@ func (c *Ctx) checkRetransBound(rl *retransLoop, rule, key string) {
 		r.Fail(rule, key, c.pos(ifi), "the transmission loop is not bounded by a counter")
 		return
 	}
-	// counter = phi(0, counter+1)
-	start, step := int64(-1), int64(0)
+	// the counter: an affine walk "value on entry, ±1 per iteration"; entry and bound are either constants
+	// or MaxRetransmits + constant
+	var entry ssa.Value
+	step := int64(0)
 	for i, e := range ph.Edges {
 		if rl.loop.Blocks[ph.Block().Preds[i]] {
-			if bo, ok := e.(*ssa.BinOp); ok && bo.Op == token.ADD && bo.X == ssa.Value(ph) {
-				step, _ = flow.ConstInt(bo.Y)
+			if bo, ok := e.(*ssa.BinOp); ok && bo.X == ssa.Value(ph) {
+				if k, okk := flow.ConstInt(bo.Y); okk {
+					switch bo.Op {
+					case token.ADD:
+						step = k
+					case token.SUB:
+						step = -k
+					}
+				}
 			}
-		} else if k, ok := flow.ConstInt(e); ok {
-			start = k
+		} else {
+			entry = e
 		}
 	}
-	if step != 1 || start < 0 {
-		r.Fail(rule, key, c.pos(ph), fmt.Sprintf("the loop counter is not of the form i = %d; i += 1 (start %d, step %d)", 0, start, step))
+	eK, eM, eok := c.retransAffine(entry, 0)
+	bK, bM, bok := c.retransAffine(bound, 0)
+	if (step != 1 && step != -1) || !eok || !bok {
+		r.Fail(rule, key, c.pos(ph), fmt.Sprintf("the transmission counter is not a ±1 walk between constants / MaxRetransmits (step %d, entry %s, bound %s)", step, short(fmt.Sprint(entry), 30), short(fmt.Sprint(bound), 30)))
 		return
 	}
-	// bound = int(MaxRetransmits) + k
-	add := int64(0)
-	b := bound
-	if bo, ok := b.(*ssa.BinOp); ok && bo.Op == token.ADD {
-		if k, ok := flow.ConstInt(bo.Y); ok {
-			add, b = k, bo.X
-		} else if k, ok := flow.ConstInt(bo.X); ok {
-			add, b = k, bo.Y
+	// number of iterations that pass the guard "counter OP bound", as a·MaxRetransmits + k
+	var itM, itK int64
+	switch {
+	case step == 1 && (op == token.LSS || op == token.LEQ || op == token.NEQ):
+		// counter runs entry, entry+1, … while counter < bound (≤: one more)
+		itM, itK = bM-eM, bK-eK
+		if op == token.LEQ {
+			itK++
 		}
-	}
-	if !clientFieldLoad(b, "MaxRetransmits") {
-		r.Fail(rule, key, c.pos(ifi), "the loop bound does not derive from Client.MaxRetransmits")
+	case step == -1 && (op == token.GTR || op == token.GEQ || op == token.NEQ):
+		// counter runs entry, entry−1, … while counter > bound
+		itM, itK = eM-bM, eK-bK
+		if op == token.GEQ {
+			itK++
+		}
+	default:
+		r.Fail(rule, key, c.pos(ifi), fmt.Sprintf("the counter steps by %+d but is tested with %s: the loop is not bounded by it", step, op))
 		return
 	}
-	// iterations: i from start while i OP MaxRetransmits+add
-	iters := add - start // for '<'
-	if op == token.LEQ {
-		iters++
-	} else if op != token.LSS {
-		r.Fail(rule, key, c.pos(ifi), "unexpected loop comparison "+op.String())
+	if itM != 1 {
+		r.Fail(rule, key, c.pos(ifi), "the number of transmissions does not derive from Client.MaxRetransmits")
 		return
 	}
-	r.Check(iters == 1, rule, key, c.pos(ifi), "the request is transmitted at most MaxRetransmits + 1 times (counter from 0, step 1)",
-		fmt.Sprintf("the loop transmits the request MaxRetransmits%+d times instead of MaxRetransmits+1", iters))
+	r.Check(itK == 1, rule, key, c.pos(ifi), "the request is transmitted at most MaxRetransmits + 1 times",
+		fmt.Sprintf("the loop transmits the request MaxRetransmits%+d times instead of MaxRetransmits+1", itK))
+}
+
+// retransAffine: v = k + m·MaxRetransmits (m ∈ {0,1}) — a constant, a (converted) load of Client.MaxRetransmits,
+// a sum of these, or the result of a package-local helper returning such a value.
+func (c *Ctx) retransAffine(v ssa.Value, depth int) (k, m int64, ok bool) {
+	if v == nil || depth > 4 {
+		return 0, 0, false
+	}
+	if kk, isK := flow.ConstInt(v); isK {
+		return kk, 0, true
+	}
+	if clientFieldLoad(v, "MaxRetransmits") {
+		return 0, 1, true
+	}
+	switch x := flow.Peel(v).(type) {
+	case *ssa.BinOp:
+		if x.Op != token.ADD && x.Op != token.SUB {
+			return 0, 0, false
+		}
+		k1, m1, ok1 := c.retransAffine(x.X, depth+1)
+		k2, m2, ok2 := c.retransAffine(x.Y, depth+1)
+		if !ok1 || !ok2 {
+			return 0, 0, false
+		}
+		if x.Op == token.SUB {
+			return k1 - k2, m1 - m2, true
+		}
+		return k1 + k2, m1 + m2, true
+	case *ssa.Call:
+		g := flow.StaticCallee(x)
+		if g == nil || g.Blocks == nil || !c.P.IsLibrary(g) {
+			return 0, 0, false
+		}
+		rvs := flow.ReturnValues(g, 0)
+		if len(rvs) != 1 {
+			return 0, 0, false
+		}
+		return c.retransAffine(rvs[0], depth+1)
+	}
+	return 0, 0, false
 }
 
 // checkTimerSpacing: every cycle through the write passes the select, whose only way back to the
